@@ -33,4 +33,6 @@ def run(check):
     check.run_rule('C03.R2p', lambda c: rule_posindex(c, 'C03.R2'))
     check.run_rule('C03.R3', lambda c: rule_mask_consume(c, model(), 'C03.R3'))
     check.run_rule('C03.R5', lambda c: rule_mask_hide(c, model(), 'C03.R5', None))
+    from ..rules_defaults import rule_neutral_defaults
+    check.run_rule('C03.R5d', lambda c: rule_neutral_defaults(c, 'C03.R5', 'mask'))
     check.run_rule('C03.R5b', lambda c: rule_mask_binding(c, model(), 'C03.R5'))
